@@ -299,28 +299,28 @@ def segment_step(own: int, parent: int, nde: int, soll: bool, y0: int, y1: int) 
     return True
 
 
-def deep_step(n: int, soll: bool, y0: int, y1: int) -> bool:
+def deep_step(n: int, soll: bool, y0: int, y1: int, y2: int) -> bool:
     """
-    pre: 0 <= n <= 3 and 0 <= y0 <= 2 and 0 <= y1 <= 2
+    pre: 0 <= n <= 3 and 0 <= y0 <= 2 and 0 <= y1 <= 2 and 0 <= y2 <= 2
     post: _
     """
     from maus.models.anwendungshandbuch import AhbMetaInformation, DeepAnwendungshandbuch
 
     n = xs.pick(n, 0, 4)
-    ys = [xs.pick(y0, 0, 3), xs.pick(y1, 0, 3), 0]
+    ys = [xs.pick(y0, 0, 3), xs.pick(y1, 0, 3), xs.pick(y2, 0, 3)]
     groups = [SegmentGroup(discriminator=f"G{i}", ahb_expression=f"E#G{i}", segments=[], segment_groups=[]) for i in range(n)]
     ahb = DeepAnwendungshandbuch(meta=AhbMetaInformation(pruefidentifikator="11042"), lines=groups)
     calls = []
 
     async def child_group(segment_group, parent_segment_group_requirement=None, soll_is_required=True):
         calls.append((segment_group.discriminator, parent_segment_group_requirement, soll_is_required))
-        await detloop.yields(ys[len(calls) % 3])
+        await detloop.yields(ys[int(segment_group.discriminator[1:]) % 3])
         return _canned(segment_group.discriminator)
 
     with Patch(validate_segment_group=child_group):
         got = _run(V.validate_deep_anwendungshandbuch(ahb, soll))
     xs.reached()
-    d = dict(n=n, soll=soll, y0=y0, y1=y1)
+    d = dict(n=n, soll=soll, y0=y0, y1=y1, y2=y2)
     soll_c = bool(xs.R(soll))
     if got[0] != "ok":
         return xs.fail(f"validate_deep_anwendungshandbuch({n} root groups): {got}", **d)
